@@ -170,7 +170,38 @@ def sketch_space(tier):
     return out
 
 
+def sched(family, tier, bound, parts, maxs=None):
+    out = []
+    for i in range(parts):
+        argv = ["schedx", family, tier, str(bound), str(i), str(parts)]
+        if maxs:
+            argv.append(str(maxs))
+        out.append({"id": "sched-%s-b%d-%02d" % (family, bound, i), "argv": argv})
+    return out
+
+
 def jobs_for(prop, tier):
+    thorough = tier == "thorough"
+    j = _jobs_for(prop, tier)
+    # explored schedules of the real sync cache (E2); the postlude of every schedule
+    # checks structure, counters, drops, final state and the sequential refill
+    b = 3 if thorough else 2
+    if prop == "C02":
+        j = sched("c02", tier, b, 16) + sched("c07", tier, b, 2) + sched("c16", tier, b, 2)
+    elif prop == "C09":
+        j = sched("c09", tier, 2 if thorough else 1, 8, 20000) + sched("c02", tier, 2, 16) + sched("c07", tier, 2, 2)
+    elif prop == "C07":
+        j = j + sched("c07", tier, b, 4)
+    elif prop == "C16":
+        j = j + sched("c16", tier, b, 3)
+    elif prop == "C04":
+        j = j + sched("c04", tier, 2, 2) + [{"id": "overshoot", "argv": ["overshoot"]}]
+    elif prop in ("C03", "C08", "C10", "C11"):
+        j = j + sched("c02", tier, 2, 16)
+    return j
+
+
+def _jobs_for(prop, tier):
     thorough = tier == "thorough"
     if prop == "C01":
         return c01_space(tier)
